@@ -29,7 +29,9 @@ func NewParams(schema *Schema, su SimpleURL, resType string) (*Params, error) {
 	// Remove duplicates and uncessary includes
 	for i := len(incs) - 1; i >= 0; i-- {
 		if i > 0 {
-			if strings.HasPrefix(incs[i], incs[i-1]) {
+			// Only drop a path that is equal to the next one or a parent of
+			// it (r and r.s), not one whose name is a prefix of it (r, rr).
+			if incs[i] == incs[i-1] || strings.HasPrefix(incs[i], incs[i-1]+".") {
 				incs = append(incs[:i-1], incs[i:]...)
 			}
 		}
